@@ -242,13 +242,22 @@ def draw_cfg(rng: random.Random, methods=None, pipes=None, target=None, months=N
     per_bh = r3(rng.uniform(0.2, 0.5))
     family = rng.choice(LOAD_FAMILIES)
     if target is None:
-        target = rng.choices(["bracket", "tiny", "huge"], [0.7, 0.15, 0.15])[0]
+        target = rng.choices(["bracket", "tiny", "huge", "clamp_min"], [0.62, 0.13, 0.13, 0.12])[0]
+    if target == "clamp_min":
+        # a narrow height window and a load just above what one (or a few) boreholes carry at maximum height: the next
+        # larger field is then ample even at minimum height and the sized height is clamped there, with real loads
+        max_h = r3(min_h * rng.uniform(1.12, 1.45))
+        borehole["height"] = r3(rng.uniform(min_h, max_h))
+        sim["max_height"] = max_h
     # peak W per metre of drilling that a field sustains: a crude 35 W/m figure scaled by soil k and margins
     wpm = 35.0 * soil["conductivity"] / 2.5 * min(max_eft - ugt, ugt - min_eft) / 10.0
     if family == "constant":
         wpm *= 0.35
     eff_hi = min(nhi, cap - 1) if cap else nhi
-    if target == "bracket":
+    if target == "clamp_min":
+        n_t = rng.choice([1, 1, 1, 2, 2, 3])
+        amp = wpm * n_t * max_h * rng.uniform(1.0, 1.9)
+    elif target == "bracket":
         n_t = math.exp(rng.uniform(math.log(1.5), math.log(max(2.0, eff_hi * 0.8))))
         amp = wpm * n_t * rng.uniform(min_h, max_h)
     elif target == "tiny":
